@@ -630,6 +630,8 @@ class Interpolation(object):
             y.append(self.derivative(xi))
         # Create a new Interpolation object
         prime = Interpolation(x, y)
+        # The search must honour the tolerance of this object
+        prime.set_tolerance(self._tol)
         # Find the root within that object, and return it
         return prime.root(xl, xh, max_iter)
 
